@@ -257,7 +257,7 @@ def ob_mutate(name, tindex, kind, positions):
                 results.append(inconclusive("vacuous: the unmodified hash (as bytes) is not identified on any path at position %d" % pos,
                                             name="%s[#%d,%s@%d]" % (name, tindex, kind, pos)))
                 continue
-        is_orig = (ch == ord(orig_ch)) if kind != "sub2" else z3.And(ch == ord(orig_ch), ch2 == ord(t[pos + 1]))
+        is_orig = None if orig_ch is None else (ch == ord(orig_ch)) if kind != "sub2" else z3.And(ch == ord(orig_ch), ch2 == ord(t[pos + 1]))
         if kind in ("sub", "sub2") and good_chk is not None and hasattr(base, "_calc_checksum") and not getattr(base, "is_disabled", False):
             # reachability witness: with the original character this is the unmodified hash, which must verify on some path
             def _accepts(p):
